@@ -6,7 +6,7 @@ def g(w, **kw): return lambda rng: hist.gen_history(rng, w, **dict(kw, exotic=kw
 # C03: edits everywhere
 C03 = g(dict(add_dim=5, del_dim=4, add_attr=14, del_attr=12, rename=8, disable=3, upd=14, rekey=2, prune=1, keygen=12, refresh=8, encaps=14, decaps=16, recaps=1, rt=2, mpk=1), exotic=True)
 # C04: rotation; no prune / deletions
-C04 = g(dict(rfbad=3, add_dim=1, del_dim=0, add_attr=3, del_attr=0, rename=1, disable=2, upd=5, rekey=18, prune=0, keygen=10, refresh=16, encaps=16, decaps=20, recaps=1, rt=2, mpk=2))
+C04 = g(dict(rfbad=3, add_dim=1, del_dim=1, add_attr=3, del_attr=3, rename=1, disable=2, upd=5, rekey=18, prune=0, keygen=10, refresh=16, encaps=16, decaps=20, recaps=1, rt=2, mpk=2))
 # C05: revocation
 C05 = g(dict(rfbad=2, add_dim=1, del_dim=3, add_attr=3, del_attr=8, rename=1, disable=3, upd=8, rekey=14, prune=12, keygen=8, refresh=16, encaps=12, decaps=18, recaps=1, rt=2, mpk=1))
 # C06: disabling
